@@ -35,23 +35,27 @@ type fx struct {
 	base   int64
 	mgp    string
 	mult   string
+	enable int64 // feemarket EnableHeight (0: adjustment running from the start)
 }
 
 func fixtures(tier string) []fx {
 	out := []fx{
-		{"nobase-mgp0-m0.5", true, 0, "0", "0.5"},
-		{"nobase-mgp1e9-m0.5", true, 0, "1000000000", "0.5"},
-		{"base1e9-mgp0-m0.5", false, 1000000000, "0", "0.5"},
-		{"base1e9-mgp5e8-m0", false, 1000000000, "500000000", "0"},
-		{"base1e9-mgp1e9-m1", false, 1000000000, "1000000000", "1"},
-		{"base7-mgp0-m0.5", false, 7, "0", "0.5"},
-		{"base1e9-mgp1.5-m0.5", false, 1000000000, "1.5", "0.5"},
-		{"nobase-mgp12.25-m0.5", true, 0, "12.25", "0.5"},
+		{"nobase-mgp0-m0.5", true, 0, "0", "0.5", 0},
+		{"nobase-mgp1e9-m0.5", true, 0, "1000000000", "0.5", 0},
+		{"base1e9-mgp0-m0.5", false, 1000000000, "0", "0.5", 0},
+		{"base1e9-mgp5e8-m0", false, 1000000000, "500000000", "0", 0},
+		{"base1e9-mgp1e9-m1", false, 1000000000, "1000000000", "1", 0},
+		{"base7-mgp0-m0.5", false, 7, "0", "0.5", 0},
+		{"base1e9-mgp1.5-m0.5", false, 1000000000, "1.5", "0.5", 0},
+		{"nobase-mgp12.25-m0.5", true, 0, "12.25", "0.5", 0},
+		// the base-fee adjustment has not started yet (EnableHeight ahead): the configured base fee is
+		// the current one and is enforced all the same
+		{"base1e9-mgp0-m0.5-enable@1000", false, 1000000000, "0", "0.5", 1000},
 	}
 	if tier == "thorough" {
-		out = append(out, fx{"base1e9-mgp2e9-m0.5", false, 1000000000, "2000000000", "0.5"},
-			fx{"nobase-mgp0.3-m0.999", true, 0, "0.3", "0.999999999999999999"},
-			fx{"base3-mgp2.5-m0.25", false, 3, "2.5", "0.25"})
+		out = append(out, fx{"base1e9-mgp2e9-m0.5", false, 1000000000, "2000000000", "0.5", 0},
+			fx{"nobase-mgp0.3-m0.999", true, 0, "0.3", "0.999999999999999999", 0},
+			fx{"base3-mgp2.5-m0.25", false, 3, "2.5", "0.25", 0})
 	}
 	return out
 }
@@ -69,7 +73,7 @@ type world7 struct {
 func newWorld(f fx) *world7 {
 	fm := feemarkettypes.DefaultParams()
 	fm.NoBaseFee = f.noBase
-	fm.EnableHeight = 0
+	fm.EnableHeight = f.enable
 	fm.BaseFee = sdkmath.NewInt(f.base)
 	fm.MinGasPrice = sdk.MustNewDecFromStr(f.mgp)
 	fm.MinGasMultiplier = sdk.MustNewDecFromStr(f.mult)
